@@ -353,6 +353,14 @@ theorem fact_wideCfg :
     wideCfg "INT" = some (.gt, 32) ∧ wideCfg "UINT" = some (.gt, 32) ∧
     wideCfg "LEAFLIST_INT" = some (.gt, 32) ∧ wideCfg "LEAFLIST_UINT" = some (.gt, 32) := by decide
 
+/-- a DecimalVal is refused exactly when its precision exceeds 18. -/
+theorem fact_precisionRefused (p : Nat) : precisionRefused p = decide (p > 18) := by
+  have : Generated.maxDecimalPrecisionV2 = some 18 := by decide
+  simp [precisionRefused, this]
+
+/-- a FloatVal NaN is refused with an error (no panic). -/
+theorem fact_nanFailure : nanFailure = .floatNaN := by decide
+
 theorem isWide_int (w : Int) : isWide "INT" w = decide (w > 32) := by
   simp [isWide, fact_wideCfg.1, CmpOp.eval]
 
@@ -408,17 +416,18 @@ theorem llCollect_floats (acc : LLAcc) (xs : List Nat) :
   | nil => simp [llCollect]
   | cons x xs ih => simp [llCollect, ih]
 
-theorem llCollect_decs (acc : LLAcc) (xs : List Int) (p : Nat) (hne : xs ≠ []) :
+theorem llCollect_decs (acc : LLAcc) (xs : List Int) (p : Nat) (hne : xs ≠ []) (hp : p ≤ 18) :
     llCollect acc (xs.map fun d => .dec d p) =
       .ok { acc with digits := acc.digits ++ xs, precision := p % 256 } := by
+  have hr : precisionRefused p = false := by rw [fact_precisionRefused]; simp; omega
   induction xs generalizing acc with
   | nil => exact absurd rfl hne
   | cons x xs ih =>
     cases xs with
-    | nil => simp [llCollect]
+    | nil => simp [llCollect, hr]
     | cons y ys =>
       have := ih { acc with digits := acc.digits ++ [x], precision := p % 256 } (by simp)
-      simp only [List.map_cons, llCollect] at this ⊢
+      simp only [List.map_cons, llCollect, hr, Bool.false_eq_true, if_false] at this ⊢
       rw [this]
       simp
 
@@ -453,10 +462,10 @@ theorem handleLeafList_bytess (xs : List Bytes) (t0 : Nat) (hne : xs ≠ []) :
   have h := length_pos_of_ne_nil xs hne
   simp [handleLeafList, llCollect_bytess, fact_leafListChain, llChain, llNonEmpty, llBuild, h]
 
-theorem handleLeafList_decs (xs : List Int) (p t0 : Nat) (hne : xs ≠ []) :
+theorem handleLeafList_decs (xs : List Int) (p t0 : Nat) (hne : xs ≠ []) (hp : p ≤ 18) :
     handleLeafList (xs.map fun d => .dec d p) t0 = .ok (newLLDecimal xs (p % 256)) := by
   have h := length_pos_of_ne_nil xs hne
-  simp [handleLeafList, llCollect_decs _ xs p hne, fact_leafListChain, llChain, llNonEmpty, llBuild, h]
+  simp [handleLeafList, llCollect_decs _ xs p hne hp, fact_leafListChain, llChain, llNonEmpty, llBuild, h]
 
 theorem handleLeafList_floats (xs : List Nat) (t0 : Nat) (hne : xs ≠ []) :
     handleLeafList (xs.map .float) t0 = .ok (newLLFloat xs) := by
